@@ -60,7 +60,8 @@ def generate(seed, tier):
     if rw.random() < 0.5:
         cfg["scheduler"] = "custom"
         cfg["Lmin"] = 1
-        cfg["custom_plan"] = SC.gen_custom_plan(rw, N, cfg["fs"], max_bins=6 if sim else 30, Lcap=40 if sim else None)
+        cfg["custom_plan"] = SC.gen_custom_plan(rw, N, cfg["fs"], max_bins=6 if sim else 30, Lcap=40 if sim else None,
+                                                sorted_f=rw.random() < 0.7)
     if sim:
         cfg["force_target_nf"] = False
         cfg["Jdes"] = min(cfg["Jdes"], 8)
@@ -75,6 +76,8 @@ def generate(seed, tier):
                  order=rw.choice([-1, 0, 1, 2]), band=None, force_target_nf=False)
     if rw.random() < 0.3:
         other["win"] = rw.choice(["hann", "kaiser", "bartlett"])
+    if channels == 2 and rw.random() < 0.4:
+        other = dict(cfg, band=None, force_target_nf=False, first_channel_only=True)     # same plan, auto mode, same process
     ops = [["other"], ["compute"]] if rw.random() < 0.35 else [["compute"]]
     for _ in range(nops):
         r = rw.random()
@@ -94,7 +97,8 @@ def generate(seed, tier):
             if rw.random() < 0.5:
                 ops.append(["single", ["grid", rw.randrange(64)], ["planL", rw.randrange(64)]])
             else:
-                ops.append(["single", ["free", rw.choice([0.0, 0.5]) if rw.random() < 0.12 else round(rw.uniform(0, 0.5), 5)], rw.choice([["L", rw.randrange(1, Lmax + 1)], ["fres", rw.randrange(1, Lmax + 1)],
+                ops.append(["single", ["free", rw.choice([0.0, 0.5, round(rw.uniform(0.5, 1.0), 5), round(rw.uniform(0.5, 1.0), 5)]) if rw.random() < 0.2
+                                       else round(rw.uniform(0, 0.5), 5)], rw.choice([["L", rw.randrange(1, Lmax + 1)], ["fres", rw.randrange(1, Lmax + 1)],
                                                                                          ["fres", round(rw.uniform(1.0, Lmax), 3)]])])
     return {"world": W.gen_world(rf, world, 6), "data": data, "cfg": cfg, "other": other, "ops": ops,
             "clock": CK.gen_clock(R.stream(seed, "clock"), p_none=0.5)}
@@ -224,7 +228,9 @@ def execute(sc, out):
                         out.count("buffer_refilled_in_place")
                     elif kind == "other":
                         try:
-                            SC.build_analyzer(buf, sc["other"]).compute()
+                            o_cfg = sc["other"]
+                            o_data = np.array(buf[0], copy=True) if (o_cfg.get("first_channel_only") and buf.ndim == 2) else buf
+                            SC.build_analyzer(o_data, o_cfg).compute()
                             out.count("other_analyzer_compute")
                         except Exception:
                             out.count("other_analyzer_failed")
